@@ -291,12 +291,40 @@ func (c *Cluster) Start(id int) error {
 			// nobody asked for this: the process exited on its own
 			c.rec.Log("exited", "n", id, "k", inc, "err", fmt.Sprint(err))
 			c.unexpectedMu.Lock()
-			c.unexpectedExits = append(c.unexpectedExits, fmt.Sprintf("node %d incarnation %d: %v", id, inc, err))
+			c.unexpectedExits = append(c.unexpectedExits, fmt.Sprintf("node %d incarnation %d: %v: %s", id, inc, err, c.lastWords(id)))
 			c.unexpectedMu.Unlock()
 		}
 		close(exited)
 	}()
 	return nil
+}
+
+// lastWords extracts why a node died on its own from its stderr (panic message
+// and the first frames, or the last lines).
+func (c *Cluster) lastWords(id int) string {
+	b, err := os.ReadFile(filepath.Join(c.work, fmt.Sprintf("node%d.stderr", id)))
+	if err != nil {
+		return ""
+	}
+	if len(b) > 1<<16 {
+		b = b[len(b)-(1<<16):]
+	}
+	text := string(b)
+	for _, marker := range []string{"panic:", "fatal error:"} {
+		if i := strings.LastIndex(text, marker); i >= 0 {
+			text = text[i:]
+			lines := strings.Split(text, "\n")
+			if len(lines) > 14 {
+				lines = lines[:14]
+			}
+			return strings.Join(lines, " | ")
+		}
+	}
+	lines := strings.Split(strings.TrimSpace(text), "\n")
+	if len(lines) > 4 {
+		lines = lines[len(lines)-4:]
+	}
+	return strings.Join(lines, " | ")
 }
 
 // Kill sends SIGKILL and waits until the process is gone; the "killed" event is
